@@ -628,6 +628,7 @@ type caseRun struct {
 	live       bool
 	nontrivial bool
 	replaying  bool // re-running a prefix of the case to re-create its state: no statistics
+	haFault    bool // a HAProxy admin call was made to fail in this case: the managed set is not compared
 }
 
 func (x *caseRun) execOp(i int) string {
@@ -652,6 +653,8 @@ func (x *caseRun) execOp(i int) string {
 		w.ctl.Gate(yieldPoint, false)
 		w.ha.set(0)
 		w.writeTree(entries)
+		w.ha.resetManaged()
+		x.haFault = false
 		st, body := w.do("POST", "/load_flows", nil)
 		x.live = st == 200
 		if x.live {
@@ -685,6 +688,9 @@ func (x *caseRun) execOp(i int) string {
 		}
 		if w.heldPut != nil && (p.faultKind != "none" || p.gate) {
 			return "bad-op"
+		}
+		if p.faultKind == "haproxy" {
+			x.haFault = true
 		}
 		var st int
 		var ph string
@@ -729,6 +735,22 @@ func (x *caseRun) execOp(i int) string {
 			x.nontrivial = true
 		}
 		return fmtAnswer(o, st, ph, mid)
+	case ws[0] == "tick" && len(ws) == 1:
+		if !x.live {
+			return "skip"
+		}
+		// the un-manage delay (staleVersionTTL = 30 s) elapses on the engine's clock
+		w.clock.AdvanceTime(31 * time.Second)
+		w.ha.quiesce()
+		return "ok"
+	case ws[0] == "managed" && len(ws) == 1:
+		if !x.live {
+			return "skip"
+		}
+		if x.haFault {
+			return "n/a"
+		}
+		return w.ha.managedFiles()
 	case ws[0] == "hold":
 		p, ok := parsePut(ws[1:])
 		if !ok {
@@ -756,6 +778,9 @@ func (x *caseRun) execOp(i int) string {
 			return "none"
 		}
 		p := w.heldPut
+		if p.faultKind == "haproxy" {
+			x.haFault = true
+		}
 		st, ph, mid := w.release()
 		if !x.replaying {
 			o.Count("release-" + ph)
